@@ -165,15 +165,28 @@ def convCols : List (Name × List Cell) → Option (List Col)
       | some c, some r => some (c :: r)
       | _, _ => none
 
+def allLensEq : List Col → Bool
+  | [] => true
+  | c :: rest => rest.all (fun d => d.len == c.len)
+
+/-- `times` cut or zero-padded to `n` entries (the harness always supplies exactly `n`) -/
+def fitLen (n : Nat) (ts : List Int) : List Int := (List.range n).map (fun i => ts.getD i 0)
+
 /-- `convertColumnsToTyped`. `times` = the converted int64 values of the time column and `nrec` = the
 length of the map-order-first non-empty column are supplied with the record (value arithmetic and Go
-map order are outside the model). -/
+map order are outside the model). Since /repo 3fc3856 two non-empty columns of different length are
+an error (fact `convertChecksLengths`): whatever the producer, the typed batch is even. -/
 def convert (cols : List (Name × List Cell)) (times : List Int) (nrec : Nat) : Option Batch :=
   match convCols cols with
   | none => none
   | some cs =>
-    let hasTime := cs.any (fun c => c.name == timeName)
-    some { cols := cs, times := if hasTime then times else [], nrec := nrec }
+    if convertChecksLengths && !allLensEq cs then none
+    else
+      let hasTime := cs.any (fun c => c.name == timeName)
+      let n := match cs.find? (fun c => c.name == timeName) with
+        | some c => c.len
+        | none => 0
+      some { cols := cs, times := if hasTime then fitLen n times else [], nrec := nrec }
 
 /-! ## rowsToColumnar (row-format MessagePack records of one measurement) -/
 
@@ -260,10 +273,6 @@ def maxL : Int → List Int → Int
 /-- the Parquet schema: `_`-prefixed columns are left out (and an empty name would be indexed) -/
 def schemaFields (cols : List Col) : List Col :=
   cols.filter (fun c => !(schemaSkipsUnderscore && isUnderscore c.name) && !(schemaGuardsEmpty && c.name.isEmpty))
-
-def allLensEq : List Col → Bool
-  | [] => true
-  | c :: rest => rest.all (fun d => d.len == c.len)
 
 /-- `WriteParquetColumnar`: getSchema (`name[0]`), one builder per field (`AppendValues`),
 `array.NewRecord`. `none` = returned an error. -/
